@@ -6,7 +6,9 @@ use std::fs::{File, Metadata};
 use std::io;
 use std::path::Path;
 
-pub const FCAP: usize = 128;
+/// capacity of the in-memory files: 64, so that CBMC keeps the arrays field-sensitive
+/// (with 128 cells every byte of the file — incl. the type-name length — becomes symbolic)
+pub const FCAP: usize = 64;
 pub static mut FILE_LEN: usize = 0;
 pub static mut FILE_DATA: [u8; FCAP] = [0; FCAP];
 pub static mut FILE_POS: usize = 0;
@@ -72,6 +74,17 @@ pub fn read_stub(_f: &mut File, buf: &mut [u8]) -> io::Result<usize> {
         Ok(n)
     }
 }
+/// `BufReader<File>` fills its buffer through `read_buf` (unstable API, Kani's toolchain only).
+#[cfg(kani)]
+pub fn read_buf_stub(_f: &mut File, mut cursor: std::io::BorrowedCursor<'_, u8>) -> io::Result<()> {
+    unsafe {
+        let rem = FILE_LEN - FILE_POS;
+        let n = if cursor.capacity() < rem { cursor.capacity() } else { rem };
+        cursor.append(&FILE_DATA[FILE_POS..FILE_POS + n]);
+        FILE_POS += n;
+        Ok(())
+    }
+}
 pub fn write_stub(_f: &mut File, buf: &[u8]) -> io::Result<usize> {
     unsafe {
         let n = buf.len();
@@ -107,11 +120,8 @@ pub fn put_file(data: &[u8], n: usize) -> std::path::PathBuf {
     {
         unsafe {
             FILE_DATA = [0; FCAP];
-            let mut i = 0;
-            while i < FCAP {
-                if i < n { FILE_DATA[i] = data[i]; }
-                i += 1;
-            }
+            assert!(data.len() <= FCAP && n <= data.len(), "HARNESS: file fits");
+            FILE_DATA[..data.len()].copy_from_slice(data);
             FILE_LEN = n;
             FILE_POS = 0;
         }
@@ -142,6 +152,7 @@ macro_rules! fs_harness {
         #[cfg_attr(kani, kani::stub(std::fs::OpenOptions::append, crate::fsenv::oo_append_stub))]
         #[cfg_attr(kani, kani::stub(std::fs::OpenOptions::open, crate::fsenv::oo_open_stub))]
         #[cfg_attr(kani, kani::stub(<std::fs::File as std::io::Read>::read, crate::fsenv::read_stub))]
+        #[cfg_attr(kani, kani::stub(<std::fs::File as std::io::Read>::read_buf, crate::fsenv::read_buf_stub))]
         #[cfg_attr(kani, kani::stub(<std::fs::File as std::io::Write>::write, crate::fsenv::write_stub))]
         #[cfg_attr(kani, kani::stub(<std::fs::File as std::io::Write>::flush, crate::fsenv::flush_stub))]
         #[cfg_attr(kani, kani::stub(<std::os::fd::OwnedFd as core::ops::Drop>::drop, crate::fsenv::close_stub))]
